@@ -5,6 +5,7 @@ mod gen;
 mod ops;
 mod par;
 mod props;
+mod query;
 mod session;
 mod wire;
 
@@ -25,6 +26,14 @@ fn main() {
         std::process::exit(2);
     }
     let prop = args[1].clone();
+    if prop == "query" {
+        query::run();
+        return;
+    }
+    if prop == "gen-named" {
+        print!("{}", query::generated_named());
+        return;
+    }
     if prop == "gen-ansi" {
         print!("{}", props::c12::generated_table());
         return;
